@@ -7,6 +7,7 @@ import pandas as pd
 
 from copsim import refs, zoo
 from copsim.core import outcome
+from copsim.core import derive_seed
 from copsim.seams import Poison, sterile
 
 PATTERNS = ('random', 'chain', 'star', 'equi', 'indep', 'neg', 'weak', 'block')
@@ -30,6 +31,16 @@ def rand_vine_table(rng, d_lo, d_hi, n_lo=60, n_hi=300):
         spec['round'] = rng.choice([1, 2])          # ties in the data
     elif r < 0.34 and d >= 3:
         spec['tie_cols'] = True                     # exactly tied pairwise tau values
+    h = derive_seed('offset', spec['seed'], d)
+    if h % 8 == 0:
+        # a column whose magnitude dwarfs its spread (epoch seconds within a minute, large
+        # ids): ranks survive in float64, not in anything narrower
+        spec['affine'] = [[0.0, 1.0]] * d
+        spec['affine'][(h // 8) % d] = [1.7e9, 30.0]
+    elif h % 8 == 1:
+        # a column in very small units
+        spec['affine'] = [[0.0, 1.0]] * d
+        spec['affine'][(h // 8) % d] = [2e-9, 1e-9]
     return zoo.with_index(spec)
 
 
